@@ -387,6 +387,10 @@ class OpsMixin:
                     raise Expect(("ColumnNotFoundError",), "select_hidden")
             if op == "drop":
                 dropped = set(toks)
+                if not [t for t in vis if t not in dropped]:
+                    # a table without visible columns is outside the domain (DESIGN.md 12.3: SQL
+                    # cannot express a SELECT without columns)
+                    raise Skip("drop would leave no visible column")
                 return M.select(m, new_id, [t for t in vis if t not in dropped])
             if len(set(toks)) != len(toks):
                 raise Expect(("ValueError",), "select_duplicate")
